@@ -33,6 +33,9 @@ struct Shared {
     restores: Mutex<Vec<Vec<Vec<u8>>>>,
     scans: AtomicUsize,
     key: Mutex<Vec<u8>>,
+    // batch cases: several keys in one SCAN batch, each with its own (PTTL, DUMP) replies
+    batch_keys: Mutex<Vec<Vec<u8>>>,
+    per_key: Mutex<std::collections::HashMap<Vec<u8>, (RespVec, RespVec)>>,
 }
 
 struct FakeClient {
@@ -43,6 +46,14 @@ impl FakeClient {
     fn answer(&self, cmd: &[BinSafeStr]) -> RespVec {
         let name = String::from_utf8_lossy(&cmd[0]).to_uppercase();
         match name.as_str() {
+            "PTTL" | "DUMP" if self.shared.per_key.lock().contains_key(&cmd[1]) => {
+                let (p, d) = self.shared.per_key.lock().get(&cmd[1]).cloned().expect("per key");
+                if name == "PTTL" {
+                    p
+                } else {
+                    d
+                }
+            }
             "PTTL" => self.shared.pttl.lock().clone().expect("pttl"),
             "DUMP" => self.shared.dump.lock().clone().expect("dump"),
             "RESTORE" => {
@@ -53,7 +64,12 @@ impl FakeClient {
             "SCAN" => {
                 let n = self.shared.scans.fetch_add(1, Ordering::SeqCst);
                 let keys = if n == 0 {
-                    vec![Resp::Bulk(BulkStr::Str(self.shared.key.lock().clone()))]
+                    let bk = self.shared.batch_keys.lock().clone();
+                    if bk.is_empty() {
+                        vec![Resp::Bulk(BulkStr::Str(self.shared.key.lock().clone()))]
+                    } else {
+                        bk.into_iter().map(|k| Resp::Bulk(BulkStr::Str(k))).collect()
+                    }
                 } else {
                     vec![]
                 };
@@ -250,6 +266,30 @@ pub fn run_case(rt: &tokio::runtime::Runtime, line: &str) -> String {
                 let out = fmt_restores(&shared.restores.lock(), ok);
             out
             }
+        }
+        "batch" => {
+            // batch <n> <pttl_1> <dump_1> .. <pttl_n> <dump_n>: n keys returned by one SCAN call, through the scan future
+            let n: usize = it.next().expect("n").parse().expect("n");
+            let shared = Arc::new(Shared::default());
+            let mut keys = vec![];
+            for i in 0..n {
+                let p = parse_resp_tokens(&mut it);
+                let d = parse_resp_tokens(&mut it);
+                let k = format!("k{}", i).into_bytes();
+                shared.per_key.lock().insert(k.clone(), (p, d));
+                keys.push(k);
+            }
+            *shared.batch_keys.lock() = keys;
+            let task = new_scan_task(shared.clone());
+            let fut = task.start().expect("fut");
+            let finished = rt.block_on(async {
+                tokio::time::timeout(Duration::from_millis(400), fut)
+                    .await
+                    .is_ok()
+            });
+            let ok = finished && shared.scans.load(Ordering::SeqCst) == 1;
+            let out = fmt_restores(&shared.restores.lock(), ok);
+            out
         }
         "pull" => {
             let dump = parse_resp_tokens(&mut it);
